@@ -83,6 +83,12 @@ def availability_matrix(versions, on_probe):
             r = app.request(method, path, body=body, version='1.%d' % v, headers=SVC)
             on_probe(v, route, method, r, exp)
             n += 1
+            if exp[0] == 'exact' and exp[1] in (404, 405):
+                # an operation that does not exist (yet) must not start to exist when it is asked for again (a retry, a
+                # client pinned to an old version): the same request immediately once more
+                r = app.request(method, path, body=body, version='1.%d' % v, headers=SVC)
+                on_probe(v, route, method, r, exp)
+                n += 1
         app.close()
     return n
 
